@@ -21,8 +21,8 @@ import (
 	"pgregory.net/rapid"
 
 	"verif/ev"
-	"verif/rig/mesh"
 	"verif/rig/codec"
+	"verif/rig/mesh"
 )
 
 func TestMain(m *testing.M) { codec.Register(); mesh.Boot(); mesh.SpreadPorts(); ev.Main(m) }
